@@ -36,19 +36,23 @@ type Node struct {
 	c     *Cluster
 	// Panicked is set when a handler call on this node panicked (a real daemon would have died).
 	Panicked string
+	// StoreHook, when set, is told about every wallet-store operation of the instance before it happens.
+	StoreHook func(op string)
 }
 
 // Cluster is a set of Dirk instances connected only by the simulated transport.
 type Cluster struct {
-	rc       *RunCtx
-	t        *testing.T
-	S        *Sched
-	Nodes    []*Node
-	byName   map[string]*Node
-	Net      *Transport
-	Timeout  time.Duration
-	Perms    map[string][]*checker.Permissions
-	AdminIPs []string
+	// OmitPassphrase: generation requests of clients carry no passphrase (the configured one is used).
+	OmitPassphrase bool
+	rc             *RunCtx
+	t              *testing.T
+	S              *Sched
+	Nodes          []*Node
+	byName         map[string]*Node
+	Net            *Transport
+	Timeout        time.Duration
+	Perms          map[string][]*checker.Permissions
+	AdminIPs       []string
 }
 
 // PeersWrap is the real static peers service with Suitable re-implemented: the real one iterates
@@ -56,7 +60,7 @@ type Cluster struct {
 // the order is fixed by the choice source at cluster creation.
 type PeersWrap struct {
 	*staticpeers.Service // the concrete service: further methods it may offer stay visible to type assertions
-	order []uint64
+	order                []uint64
 }
 
 // Suitable returns the first n peers in the drawn order.
@@ -159,7 +163,7 @@ func (c *Cluster) startNode(n *Node, dir string) {
 				standardprocess.WithEncryptor(n.Pop.Encryptor),
 				standardprocess.WithPeers(n.Peers),
 				standardprocess.WithID(n.ID),
-				standardprocess.WithStores([]e2wtypes.Store{&yieldStore{inner: n.Pop.Store, s: c.S, inst: func() *Instance { return n.Inst }}}),
+				standardprocess.WithStores([]e2wtypes.Store{&yieldStore{inner: n.Pop.Store, s: c.S, inst: func() *Instance { return n.Inst }, hook: func() func(string) { return n.StoreHook }}}),
 				standardprocess.WithGenerationPassphrase([]byte("pass")),
 				standardprocess.WithGenerationTimeout(c.Timeout),
 			)
@@ -548,6 +552,16 @@ func (s *nodeSender) SendContribution(_ context.Context, peer *core.Endpoint, ac
 	}
 	if res == nil {
 		return bls.SecretKey{}, nil, errRemote
+	}
+	if len(fault) > 12 && fault[:12] == "redelivered-" {
+		// The genuine contribution has been delivered and answered; the same participant's message now arrives a second
+		// time in altered form (a faulty or dishonest sender re-sending).  Whatever the receiver says to it is dropped.
+		req2 := &pb.ContributeRequest{Account: account}
+		req2.Secret, req2.VerificationVector = tr.tamperContribution(fault[12:], s.from.ID, to.ID, account, sec, vv)
+		_ = to.guard("contribute", func() error {
+			_, err := to.Recv.Contribute(to.PeerCtx(s.from.Name), roundTrip(req2, &pb.ContributeRequest{}))
+			return err
+		})
 	}
 	tr.mu.Lock()
 	tr.Contributions = append(tr.Contributions, Contribution{From: to.ID, To: s.from.ID, Account: account, Secret: res.GetSecret(), VVec: res.GetVerificationVector(), Reply: true})
